@@ -10,7 +10,7 @@ RULE = ("two-layer trees x suffix spellings x NULL/empty directory arguments x p
         "merging the history (model, theorem read_dirs_is_history_merge) gives the result; distinct by scenario")
 
 def gen(rng, tier):
-    n = 600 if tier == "quick" else 15000
+    n = 1200 if tier == "quick" else 15000
     out = []
     for _ in range(n):
         name = rng.choice([b"foo", b"bar"]); sfx = rng.choice([b"conf", b".conf", None, b""])
